@@ -14,6 +14,10 @@ Definition okP (c : list float * list float * list float * list float * list flo
   let '(fdel, hn, steps, rule, rr, (v, e, s, ix)) := c in
   let '(v', e', s', ix') := pipeline OpsF TF THR C1EM8 0x1.8p+0%float 0x1p-1%float fdel hn steps rule rr in
   feq v v' && feq e e' && feq s s' && Nat.eqb ix ix'.
+Definition okE (c : list float * list float * list float * (float * float * float * nat)) : bool :=
+  let '(der, hs, rr, (v, e, s, ix)) := c in
+  let '(v', e', s', ix') := extrapolate OpsF TF THR C1EM8 0x1.8p+0%float 0x1p-1%float der hs rr in
+  feq v v' && feq e e' && feq s s' && Nat.eqb ix ix'.
 '''
 
 
@@ -43,6 +47,17 @@ class Capture:
             w = o_rrule(slf, sequence_length)
             rec.setdefault('rr', []).append(np.array(w, copy=True))
             return w
+        from numdifftools import limits as lim
+        self.lim = lim
+        self.o_extra = lim._Limit._extrapolate
+        o_extra = self.o_extra
+
+        def _extrapolate(slf, results, steps, shape):
+            rec['ex_results'] = np.array(results, copy=True)
+            rec['ex_steps'] = np.array(steps, copy=True)
+            rec['ex_shape'] = tuple(shape)
+            return o_extra(slf, results, steps, shape)
+        lim._Limit._extrapolate = _extrapolate
         fdm.LogRule._apply = _apply
         ex.Richardson.rule = rrule
         return self
@@ -50,6 +65,7 @@ class Capture:
     def __exit__(self, *a):
         self.fdm.LogRule._apply = self.o_apply
         self.ex.Richardson.rule = self.o_rrule
+        self.lim._Limit._extrapolate = self.o_extra
 
 
 def capture_call(d, x):
@@ -83,3 +99,21 @@ def column_cases(val, info, rec):
             flist(f_del[:, c]), flist(hn[:, c]), flist(h[:, c]), flist(rec['rule']), flist(rr),
             flit(v[c]), flit(e[c]), flit(s[c]), int(ix[c]) // ncols))
     return cases, None
+
+
+def extrapolate_cases(val, info, rec):
+    """One Coq case per column of the matrices handed to _Limit._extrapolate (all classes, Hessian included)."""
+    if 'ex_results' not in rec or 'rr' not in rec:
+        return [], 'stages not observed'
+    der, hs = rec['ex_results'], rec['ex_steps']
+    if np.iscomplexobj(der) or np.iscomplexobj(hs):
+        return [], 'complex data'
+    if not np.isfinite(der).all():
+        return [], 'non-finite estimates'
+    ncols = der.shape[1]
+    v, e, s, ix = np.ravel(val), np.ravel(info.error_estimate), np.ravel(info.final_step), np.ravel(info.index)
+    if not (len(v) == len(e) == len(s) == len(ix) == ncols):
+        return [], 'shape mismatch between matrices and result'
+    rr = rec['rr'][-1]
+    return ['(%s, %s, %s, (%s, %s, %s, %d%%nat))' % (flist(der[:, c]), flist(hs[:, c]), flist(rr), flit(v[c]), flit(e[c]), flit(s[c]), int(ix[c]) // ncols)
+            for c in range(ncols)], None
